@@ -19,13 +19,19 @@ class ClassInfo:
         self.consts = {}       # name -> ast expr (class-level assignments)
         self.inner = {}        # nested classes
         self.annotations = []  # annotated fields in order (NamedTuple / dataclass style)
+        self.setters = {}      # property name -> FunctionDef of its @<name>.setter
+        self.decorators = list(node.decorator_list)
         for st in node.body:
             if isinstance(st, ast.FunctionDef):
                 decos = [_deco_name(d) for d in st.decorator_list]
                 st._gs_module = module
                 st._gs_class = name
-                if "property" in decos:
+                if "property" in decos or "cached_property" in decos:
                     self.props[st.name] = st
+                elif "setter" in decos:
+                    self.setters[st.name] = st
+                elif "deleter" in decos or "getter" in decos:
+                    pass
                 else:
                     self.methods[st.name] = (st, "classmethod" in decos, "staticmethod" in decos)
             elif isinstance(st, ast.Assign) and len(st.targets) == 1 and isinstance(st.targets[0], ast.Name):
@@ -152,6 +158,16 @@ class Package:
                 return ("const", ci.consts[attr], c)
         return None
 
+    def setter(self, clsname, attr):
+        """The @<attr>.setter function of a property, looked up along the MRO (None if the attribute is not a settable property)."""
+        for c in self.mro(clsname):
+            ci = self.classes[c]
+            if attr in ci.setters:
+                return ci.setters[attr]
+            if attr in ci.props or attr in ci.methods or attr in ci.consts:
+                return None
+        return None
+
     def method(self, clsname, attr):
         k = self.lookup(clsname, attr)
         if k is None or k[0] not in ("method", "prop"):
@@ -182,6 +198,8 @@ class Package:
                 yield "%s.%s" % (cname, mname), fn
             for pname, fn in sorted(ci.props.items()):
                 yield "%s.%s" % (cname, pname), fn
+            for pname, fn in sorted(ci.setters.items()):
+                yield "%s.%s.setter" % (cname, pname), fn
 
     def units_summary(self):
         return [dict(file=rel, sha256=u["sha256"][:16], lines=u["lines"]) for rel, u in sorted(self.units.items())]
